@@ -29,6 +29,11 @@ CHECKS = {
     text="TLC proves the composition theorem for the transcribed construction on all 463 CNFs over two variables x every gadget (arity <= 3, all thresholds, ite, flip, lifting); the real transformations are applied to the same formulas, to formulas with unused variables, to random formulas and (compression) to all small bipartite graphs, and TLC decides for every assignment of the new variables Sat(a,T(F)) <=> side condition and Sat(Induced(a),F), plus the documented variable count.",
     note="Trusted: projection of clauses, documented block layout used by Induced, TLC. Arity <= 3, <= 15 new variables.",
     ref="DESIGN.md §4 C05"),
+ "C08": dict(
+    technique="CNF/PB semantics in TLA+ (CnfSem.tla); pairs of formulas built by cnfgen vs pbgen (and CNF vs OPB formula class) judged by TLC over all assignments (JudgePair.tla); clause-blasting = native constraint equivalence model-checked (LinearMC)",
+    text="For every formula helper shared by cnfgen and pbgen (all 32, with their option variants) and for every library generator with formula_class CNF and OPB, TLC compares variable count, variable names in order, and the truth value of both formulas on every assignment (<= 13/17 variables; candidate assignments beyond). The model-level reason (cardinality constraint = its clause blasting for all operators) is checked exhaustively by LinearMC.",
+    note="Trusted: projection of clauses/constraints/labels, in-process cli() calls with mode='formula', TLC. Small parameters; named graphs and graph files.",
+    ref="DESIGN.md §4 C08"),
  "C16": dict(
     technique="implementation-shaped TLA+ state machine (Graphs.tla) model-checked exhaustively by TLC; TLC-generated behaviours replayed into the real classes with every view compared after every call",
     text="TLC explores every reachable state of the implementation-shaped graph machine (vertex counts 0..3/4, all arguments incl. invalid) with invariant ViewsAgree and the no-side-effect action property; every behaviour of depth 2 (3 thorough) and thousands of deeper random walks are replayed into Graph/DirectedGraph/BipartiteGraph, comparing all views and networkx conversions with TLC's expected abstract views after each step.",
